@@ -1,7 +1,7 @@
 PROP = dict(
     id="C10",
     lean_modules=["TongoProofs.C10", "TongoProofs.C09"],
-    gen=["LiteApi"],
+    gen=["LiteApi", "TlLength"],
     # the model IS the specification for these: the TL rules applied to the schema text carried in the line
     info_ops=("tl.crcid",),  # id spelled in the schema vs CRC-32 of the declaration text: outside C10 (the property speaks of the id given in the schema line); reported in the evidence only
     spec_ops=("tl.enc", "tl.dec", "tl.fenc", "tl.fdec", "tl.req", "tl.ans", "tl.reqdec", "tl.schema",
@@ -15,8 +15,8 @@ PROP = dict(
     trusted_base=[
         "harness/tlmini (tokeniser + printer of the TL subset, reflection binding Go struct <-> value text by the "
         "generator's naming convention, reference encoder used only to produce inputs and for the go. oracles)",
-        "translator X3 (tokeniser -> Lean value); tied to the raw file twice: kernel-checked liteapi_render / line_i "
-        "(Lean value = canonical text) and run-time op tl.schema (the model's own parser on the raw file prints the "
+        "translator X3 (tokeniser -> compact Lean value, names as character codes); tied to the raw file twice: "
+        "kernel-checked liteapi_render_c / liteapi_render (Lean value = canonical text) and run-time op tl.schema (the model's own parser on the raw file prints the "
         "same canonical text)",
         "CRC-32 / little-endian primitives of the model, validated against hash/crc32 on every run (prim.crc32)",
     ],
@@ -26,12 +26,16 @@ PROP = dict(
         "decoding is modelled for well-formed input and for the dispatch errors (unknown id, liteServer.error, short "
         "answer); totality/allocation on arbitrary malformed input is property C08",
     ],
+    # ids of lite_api.tl that are NOT the CRC-32 of their declaration text (mirror of Tl.crcExceptions in
+    # lean/TongoModel/Tl/LiteClient.lean; the first three are known findings, the last one is pinned upstream). They are
+    # outside C10's statement, which speaks of the id given in the schema line.
+    crc_exceptions=["liteServer.libraryResultWithProof", "liteServer.lookupBlockResult",
+                    "liteServer.getLibrariesWithProof", "liteServer.getValidatorStats"],
     partial=[
-        "CtorIdIsCrc32 (every id of lite_api.tl = CRC-32 of its declaration) is stated as a def, not proved: it is false "
-        "on the current file for three declarations (known findings) and one id is pinned upstream; it is evaluated per "
-        "declaration on every run by the model driver (spec op tl.crcid, a finite computation); the kernel-checked part "
-        "is ctor_id_is_crc32_partial (the constants used by hand-written client code) and the witness "
-        "ctor_id_is_crc32_counterexample",
+        "ctor_id_is_crc32 holds for every declaration of lite_api.tl EXCEPT the four of crc_exceptions (regenerated "
+        "obligation liteapi_ids_crc32: table-driven CRC over character codes evaluated by the kernel, carried to the "
+        "bitwise CRC by crc32T_eq_crc32N); for the exceptions the spelled id differs (info op tl.crcid, witness "
+        "ctor_id_is_crc32_counterexample)",
         "X6 (generator output == checked-in generated.go / integers.go after gofmt) is an input-free comparison of two "
         "artefacts, evaluated by go.regen.*; no theorem",
     ],
@@ -39,7 +43,9 @@ PROP = dict(
     level_text="theorems for all inputs: round trip / prefix-freeness / layout clauses of the TL schema semantics for "
                "every well-formed schema (TongoProofs.C09, functional induction on the encoder), instantiated at the "
                "regenerated schema of lite_api.tl (wf_liteapi by kernel evaluation), request envelope, request decoder "
-               "table, answer handling, hand-written codecs (TongoProofs.C10). Tie: every generated type, request "
+               "table, answer handling for EVERY function of the regenerated function table (liteapi_answer_decodes), "
+               "constructor ids = CRC-32 of the declaration text (ctor_id_is_crc32, regenerated kernel obligation), "
+               "hand-written codecs (TongoProofs.C10). Tie: every generated type, request "
                "struct, client method (against a stub connection), answer path and the request decoder of the real Go "
                "code is executed on schema-directed random values and compared with the model, which is the "
                "specification for these ops; go.* oracles check round trip, self-delimitation and layout on the "
